@@ -209,7 +209,7 @@ func RunSSHs(x *Ctx) {
 		in, desc, isValid = hsInput(x, rng, resp, nil, regions, 192, ssHsLens, 1532)
 	}
 	x.feed(cc, rng, in)
-	good := x.FinishHandshake(cc, call, HsOpts{ConsumedBound: B("ss-hs"), ClosesOnFail: true, ExpectSuccess: isValid && c.Cut != "reset"})
+	good := x.FinishHandshake(cc, call, HsOpts{ConsumedBound: B("ss-hs"), ClosesOnFail: true, Kind: "plain", ExpectSuccess: isValid && c.Cut != "reset"})
 	x.R.Count(c.Prefix()+"/outcome", x.Outcome)
 	x.R.Sample(3, map[string]interface{}{"case": c.Key(), "input": desc, "outcome": x.Outcome, "log": LogSummary(cc.Log())})
 	if good {
@@ -357,7 +357,7 @@ func RunSSData(x *Ctx) {
 		a2.Add("password", base32.StdEncoding.EncodeToString(w.KB))
 		w2.Args, _ = w.CF.ParseArgs(a2)
 		c2, call2 := x.ssStartClient(w2)
-		good := x.FinishHandshake(c2, call2, HsOpts{ConsumedBound: 0, ClosesOnFail: true})
+		good := x.FinishHandshake(c2, call2, HsOpts{ConsumedBound: 0, ClosesOnFail: true, Kind: "plain"})
 		x.R.Count(c.Prefix()+"/ticket-redial", x.Outcome)
 		if good {
 			ep2 := call2.Res.(net.Conn)
